@@ -115,6 +115,14 @@ func (g *genCtx) principal() string {
 	case x < 84:
 		return td + "/*"
 	case x < 90:
+		if g.valid {
+			// keep the trust domain part whole: cut only inside the namespace / service account
+			k := len(td) + 1 + g.r.Intn(len(full)-len(td)-1)
+			if g.r.Chance(1, 2) {
+				return full[:k+1] + "*"
+			}
+			return full
+		}
 		return g.form(full, true)
 	default:
 		if g.valid {
@@ -421,6 +429,9 @@ func (g *genCtx) genPolicies(o genOpts) []string {
 	var lines []string
 	if o.aliases && r.Chance(1, 2) {
 		tds := [][]string{{"td1", "old-td"}, {"cluster.local", "td1"}, {"td1"}, {"td1", "old-td", "cluster.local"}, {"old-td", "*-td"}}
+		if g.valid {
+			tds = tds[:4] // a wildcard alias is outside the statement's reading of the bundle
+		}
 		lines = append(lines, "td "+wire.EncList(wire.Pick(r, tds)))
 	}
 	wlLabels := []string{"app=httpbin", "version=v1"}
@@ -485,8 +496,8 @@ func gen(stream string, seed uint64, n int, outp string) {
 			o.phase3 = r.Chance(1, 3)
 		case "requests", "tcp":
 			o.valid = true
-			o.aliases = false // phase 3: r.Chance(1, 4)
-			o.phase3 = false  // phase 3: r.Chance(1, 3)
+			o.aliases = r.Chance(1, 3)
+			o.phase3 = r.Chance(1, 3)
 		}
 		g.valid, g.phase3 = o.valid, o.phase3
 		var lines []string
